@@ -4,6 +4,7 @@
 # Modifications:
 # Copyright David Halter and Contributors
 # Modifications are dual-licensed: MIT and PSF.
+from ast import literal_eval
 from typing import Optional, Iterator, Tuple, List
 
 from parso.python.tokenize import tokenize
@@ -138,7 +139,13 @@ class GrammarParser:
             a = NFAState(self._current_rule_name)
             z = NFAState(self._current_rule_name)
             # Make it clear that the state transition requires that value.
-            a.add_arc(z, self.value)
+            label = self.value
+            if self.type == PythonTokenTypes.STRING:
+                # 'x', "x" and '\x78' are the same terminal: with one spelling
+                # per terminal, alternatives starting with it share an arc
+                # label and conflicts between them are detected.
+                label = repr(literal_eval(label))
+            a.add_arc(z, label)
             self._gettoken()
             return a, z
         else:
